@@ -5,7 +5,7 @@ from .. import heap as H
 from ..core import AnalysisError, norm, walk_no_nested
 
 META = {
-    'design_ref': 'DESIGN.md §3 C10',
+    'design_ref': 'DESIGN.md §5 C10',
     'technique': 'shape-case abstract interpretation (heap of symbolic field/paragraph objects) of the re-ordering, replace/delete and '
                  'paragraph insert/append methods of the format-preserving document classes, compared case by case with a reference list '
                  'model; effect-ordering rule (the final-newline helper runs before the first mutation and on the right element) observed '
